@@ -87,8 +87,8 @@ func (fc *FuncCtx) valOfStatic(fr *Frame, x ssa.Value) Val {
 	switch t := x.(type) {
 	case *ssa.Alloc:
 		elem := t.Type().(*types.Pointer).Elem()
-		so := fc.v.tm.SortOf(elem)
 		if fc.isCell(t) {
+			so := fc.cellSort(t)
 			return Val{Loc: &Loc{Cell: t, Sort: so, GoT: elem, RSort: so}, GoT: t.Type()}
 		}
 	case *ssa.FreeVar:
@@ -195,7 +195,7 @@ func (fc *FuncCtx) execCall(fr *Frame, st *State, com *ssa.CallCommon, ins ssa.I
 	if clo != nil {
 		return fc.inline(fr, st, clo.Fn, args, clo.Bindings, ins.Pos())
 	}
-	spec := v.specs[key]
+	spec := v.specFor(key)
 	if spec != nil && spec.Inline {
 		if callee == nil || len(callee.Blocks) == 0 {
 			unsupported("inline %s: no body available (package not loaded with syntax?)", key)
@@ -313,6 +313,18 @@ func (fc *FuncCtx) execBuiltin(fr *Frame, st *State, b *ssa.Builtin, com *ssa.Ca
 				}
 			}
 			unsupported("append on abstract value of sort %s", s.Sort.Name)
+		}
+		if t.Sort != s.Sort {
+			// concrete slice (a `rawslice` variable) extended by a variadic argument list whose type is mapped to an
+			// abstract list sort: take the elements from the argument array itself
+			if sl, ok := com.Args[1].(*ssa.Slice); ok && sl.Low == nil && sl.High == nil && sl.Max == nil {
+				if pt, ok := sl.X.Type().Underlying().(*types.Pointer); ok {
+					if at, ok := pt.Elem().Underlying().(*types.Array); ok && v.tm.SortOf(at.Elem()) == s.Sort.Fields[0].Sort.Elem {
+						arr := v.load(st, fc.asLoc(fr, st, sl.X, ins.Pos()))
+						t = c.Ctor(s.Sort, arr, c.Int(at.Len()))
+					}
+				}
+			}
 		}
 		if t.Sort != s.Sort {
 			unsupported("append: operand sorts differ (%s, %s)", s.Sort.Name, t.Sort.Name)
